@@ -409,6 +409,57 @@ def check_loci(run, rec):
     return n
 
 
+def class_mixture(run):
+    """Site classes as Felsenstein.tla defines them: the likelihood of a column is the bprobs-weighted SUM over classes of
+    the column's likelihood under that class's own process (Lik(c, b)).  Here the classes differ in ONE rate term of the
+    model (ordered_param / the rate), the classes are named in a declared order that is not alphabetical, and each class's
+    process is rebuilt from what the function REPORTS for that class (term x the class's factor)."""
+    from cogent3 import get_model, make_aligned_seqs, make_tree
+
+    tree = make_tree("((a:0.11,b:0.23):0.07,c:0.31,d:0.05)")
+    aln = make_aligned_seqs({"a": "ACGTACGTAAGRTC-A", "b": "ACGTACGTCAGGTCTA", "c": "ACTTACGGCAYGTCTA", "d": "GCTTATGGCAAGNCTT"}, moltype="dna")
+    mprobs = {"T": 0.15, "C": 0.3, "A": 0.35, "G": 0.2}
+    cases = [
+        ("TN93", "kappa_y", {"kappa_y": 3.0, "kappa_r": 0.6}),
+        ("TN93", "kappa_r", {"kappa_y": 3.0, "kappa_r": 0.6}),
+        ("GTR", "A/G", {"A/C": 0.7, "A/G": 2.9, "A/T": 1.3, "C/G": 0.5, "C/T": 3.4}),
+        ("GTR", "C/T", {"A/C": 0.7, "A/G": 2.9, "A/T": 1.3, "C/G": 0.5, "C/T": 3.4}),
+        ("HKY85", "kappa", {"kappa": 2.2}),
+        ("HKY85", "rate", {"kappa": 2.2}),
+    ]
+    n = 0
+    for mname, op, terms in cases:
+        for dist in ("free", "gamma"):
+            for names, bp in ((["low", "high"], [0.3, 0.7]), (["slow", "medium", "fast"], [0.2, 0.3, 0.5]), (2, [0.3, 0.7])):
+                key = f"class-mixture:{mname}:classes-differ-in={op}:{dist}:{'named' if isinstance(names, list) else 'counted'}-classes"
+                lf = get_model(mname, ordered_param=op, distribution=dist).make_likelihood_function(tree, bins=names)
+                lf.set_alignment(aln)
+                lf.set_motif_probs(mprobs)
+                for t, v in terms.items():
+                    lf.set_param_rule(t, value=v, is_constant=True)
+                lf.set_param_rule("bprobs", value=bp, is_constant=True)
+                fname = "rate" if op == "rate" else f"{op}_factor"
+                factors = [float(lf.get_param_value(fname, bin=b)) for b in lf.bin_names]
+                got = np.asarray(lf.get_full_length_likelihoods(), dtype=float)
+                want = np.zeros_like(got)
+                for w, f in zip(bp, factors):
+                    one = get_model(mname).make_likelihood_function(tree)
+                    one.set_alignment(aln)
+                    one.set_motif_probs(mprobs)
+                    for t, v in terms.items():
+                        one.set_param_rule(t, value=v * (f if t == op else 1.0), is_constant=True)
+                    if op == "rate":
+                        for e in tree.get_edge_vector(include_root=False):
+                            one.set_param_rule("length", edge=e.name, value=e.length * f, is_constant=True)
+                    want += w * np.asarray(one.get_full_length_likelihoods(), dtype=float)
+                n += len(got)
+                if np.abs(got - want).max() > 1e-10 * np.abs(want).max():
+                    run.fail(key, {"model": mname, "ordered_param": op, "distribution": dist, "classes": list(lf.bin_names), "bprobs": bp, "reported_factors": factors,
+                                   "lnL": float(lf.lnL), "lnL_of_weighted_sum": float(np.log(want).sum())},
+                             what="column likelihoods are not the bprobs-weighted sum over the classes' own processes (as the function reports them)")
+    return n
+
+
 def check(run: Run):
     cfg = "MC_Felsenstein_quick.cfg" if run.tier == "quick" else "MC_Felsenstein_thorough.cfg"
     with Scratch("C02") as scratch:
@@ -439,6 +490,7 @@ def check(run: Run):
         nnorm = all_columns_sum(run, run.seed, models)
         nnorm += motif_ambiguity(run, scratch)
         nnorm += spec_q_pruning(run, scratch)
+        nnorm += class_mixture(run)
     run.cov["traces_validated_against_impl"] = len(seen)
     run.cov["evaluations"] = ncols + nnorm
     run.cov["distinct_nontrivial"] = ncols
